@@ -9,9 +9,17 @@ For each impl it emits
   * `check_ref_<Builder> : fmt -> record -> option gerr`, a transliteration of the body of `check_ref`
     (None = `Ok(&self.0)`, Some e = the error returned),
   * a decoder `of_env_<Struct> : env -> record` (the harness ships parameter sets as name/value lists),
-and, read from the source text, the syntactic facts the theorems of C04 rest on: `check` is
-`self.check_ref()?; Ok(self.0)`; the blanket Fit / FitWith / Transformer impls of src/param_guard.rs
-and the hand-written unchecked entry points call `check_ref()` first and do nothing else.
+and, read from the source text, the syntactic facts the theorems of C04 rest on:
+  * `check` is `self.check_ref()?; Ok(self.0)`;
+  * [entry_points]: every `impl Fit / FitWith / Transformer / PredictInplace / Predict ... for T` of every crate of
+    the workspace (live modules only) with the class of the receiver (unchecked = has a ParamGuard impl, checked =
+    the Checked type of one, blanket = the type variable of src/param_guard.rs, other) and every method with a self
+    receiver of an unchecked type (setters excluded); for unchecked / blanket receivers the body of each method is
+    translated to a shape (`check_ref()?` / `.map` / `.and_then` then the same call, a field read, or opaque);
+  * [transform_guard_impls], [builder_setters] (the public setters of every builder).
+A second file (--out-fields, default gen/C04_fields.v next to --out) holds the checked parameter structs as data:
+per field a setter and a decoder, per float inside a field a getter, the fields outside the translated subset, the
+fields `check_ref` mentions, packed with the guard into one [guard_pack] per impl.
 
 The accepted Rust subset is the one of DESIGN.md appendix B.  Anything outside it raises
 TranslationError: the definitions are then NOT regenerated and the run reports the obligation as
@@ -1242,54 +1250,6 @@ def discover(repo):
     for im in impls:
         world.builders[im.target] = im
     return world, impls
-
-
-def unchecked_entry_points(world, impls):
-    """hand-written methods on builder types that reach the checked parameters: (builder, fn, canonical)"""
-    res = []
-    for im in impls:
-        for path, src in sorted(im.crate.files.items()):
-            for m in re.finditer(r'\bimpl\b([^{;]*?)\bfor\s+' + re.escape(im.target) + r'\b[^{;]*\{|\bimpl\s*(?:<[^{;]*?>)?\s*' + re.escape(im.target) + r'\b[^{;]*\{', src):
-                if 'ParamGuard' in m.group(0):
-                    continue
-                k = m.end() - 1
-                block = src[k:match_close(src, k) + 1]
-                for f in re.finditer(r'\bfn\s+(\w+)\s*', block):
-                    j = f.end()
-                    if j < len(block) and block[j] == '<':
-                        j = skip_generics(block, j)
-                    if not re.match(r'\s*\(\s*&\s*self\b', block[j:]):
-                        continue
-                    kk = block.index('{', match_close(block, block.index('(', j)))
-                    body = re.sub(r'\s+', '', block[kk + 1:match_close(block, kk)])
-                    if 'check_ref' not in body and 'check()' not in body:
-                        continue
-                    canon = bool(re.fullmatch(r'self\.check_ref\(\)\?\.\w+\([\w,&]*\)', body)
-                                 or re.fullmatch(r'self\.check_ref\(\)\.and_then\(\|(\w+)\|\1\.\w+\([\w,&]*\)\)', body)
-                                 or re.fullmatch(r'self\.check_ref\(\)\.map\(\|(\w+)\|\1\.\w+\([\w,&]*\)\)', body)
-                                 or re.fullmatch(r'let(\w+)=self\.check_ref\(\)\?;\1\.\w+\([\w,&]*\)', body))
-                    res.append((im.target, f.group(1), canon, os.path.relpath(path, world.repo)))
-    return res
-
-
-def blanket_facts(repo):
-    p = os.path.join(repo, 'src', 'param_guard.rs')
-    src = strip_comments(open(p, encoding='utf8').read())
-    facts = {}
-    for trait, fn, shapes in (
-            ('Fit', 'fit', [r'let(\w+)=self\.check_ref\(\)\?;\1\.fit\(dataset\)', r'self\.check_ref\(\)\?\.fit\(dataset\)']),
-            ('FitWith', 'fit_with', [r'let(\w+)=self\.check_ref\(\)\?;\1\.fit_with\(model,dataset\)', r'self\.check_ref\(\)\?\.fit_with\(model,dataset\)']),
-            ('Transformer', 'transform', [r'self\.check_ref\(\)\.map\(\|(\w+)\|\1\.transform\(x\)\)'])):
-        ok = False
-        for m in re.finditer(r'\bimpl\s*<[^{;]*?>\s*' + trait + r'\s*<[^{]*?\bfor\s+P\b[^{]*\{', src):
-            k = m.end() - 1
-            block = src[k:match_close(src, k) + 1]
-            b = fn_body(block, fn)
-            if b is not None:
-                body = re.sub(r'\s+', '', b)
-                ok = any(re.fullmatch(s, body) for s in shapes)
-        facts[trait] = ok
-    return facts
 
 
 # --------------------------------------------------------------------------------------------
